@@ -264,3 +264,10 @@ func VerifC05_CanaryExitSequenceIsComplete()    { VerifC04_CanaryTaskSequence() 
 func VerifC05_BlueGreenExitSequenceIsComplete() { VerifC04_BlueGreenTaskSequence() }
 func VerifC05_CanaryExitRunsEveryTask()         { VerifC04_CanaryFinalisingStep() }
 func VerifC05_BlueGreenExitRunsEveryTask()      { VerifC04_BlueGreenFinalisingStep() }
+
+// C18 rests on the same one-step relation: the rollout's finalizer goes when the clean-up reports done, and the
+// clean-up reports done only when every task — releasing the workload control (the BatchRelease really gone) included —
+// has reported neither "wait" nor an error (C04.*.finalising.notDoneWhileTaskPending / cursorStaysWhileTaskPending /
+// errorPropagated).
+func VerifC18_CanaryFinalisingWaitsForEveryTask()    { VerifC04_CanaryFinalisingStep() }
+func VerifC18_BlueGreenFinalisingWaitsForEveryTask() { VerifC04_BlueGreenFinalisingStep() }
